@@ -1175,7 +1175,7 @@ class HttpHeaderFieldValueContentSecurityPolicy(ParsableBase, Serializable):
             'directives',
             separator=';',
             item_class=ContentSecurityPolicyDirectiveVariant,
-            separator_spaces=' ',
+            separator_spaces=' \t',
             skip_empty=True,
         )
 
